@@ -206,3 +206,158 @@ Proof.
     destruct (Nat.ltb_spec n m); destruct (Nat.leb_spec n m); try lia. cbn [andb]. auto.
 Qed.
 End Attr.
+
+(* ---------- _repeat: what hangs below the decision it returns ---------- *)
+Lemma xadd_times_spec : forall k s t st, s < xlen st -> t < xlen st ->
+  let st' := xadd_times k s t st in
+  xlen st' = xlen st /\ x_pay st' = x_pay st /\
+  (forall m, kind_of (x_graph st') m = kind_of (x_graph st) m) /\
+  (forall m, outs_of (x_graph st') m = if m =? s then outs_of (x_graph st) s ++ repeat t k else outs_of (x_graph st) m).
+Proof.
+  induction k as [|k IH]; intros s t st Hs Ht; cbn [xadd_times].
+  - split; [reflexivity|]. split; [reflexivity|]. split; [reflexivity|]. intros m. cbn [repeat]. rewrite app_nil_r.
+    destruct (Nat.eqb_spec m s) as [->|]; reflexivity.
+  - assert (L1 : xlen (xadd s t st) = xlen st) by (unfold xlen, xadd; cbn [x_graph]; apply add_len).
+    destruct (IH s t (xadd s t st)) as (L & Y & K & O); [lia|lia|]. cbv zeta in *.
+    split; [lia|]. split; [rewrite Y; reflexivity|]. unfold xlen in *. split.
+    + intros m. rewrite K. unfold xadd. cbn [x_graph]. apply add_kind; assumption.
+    + intros m. rewrite O. unfold xadd. cbn [x_graph]. rewrite !add_outs by assumption. rewrite Nat.eqb_refl.
+      destruct (Nat.eqb_spec m s); [|reflexivity]. rewrite <- app_assoc. reflexivity.
+Qed.
+
+(* one alternative more: a do-all with k copies of the child, optionally followed by an invalid leaf *)
+Definition rep_stage (root child k : nat) (leaf : bool) (st : xbst) : xbst :=
+  let '(st, sub) := xnoop true None st in
+  let st := xadd_times k sub child st in
+  let st := if leaf then let '(st, l) := xnoop_leaf false None st in xadd sub l st else st in
+  xadd root sub st.
+
+Lemma rep_stage_spec root child k leaf st : root < xlen st -> child < xlen st ->
+  let n := xlen st in let st' := rep_stage root child k leaf st in let g := x_graph st' in
+  n < xlen st' /\
+  (forall m, m < n -> kind_of g m = kind_of (x_graph st) m) /\
+  (forall m, m < n -> outs_of g m = if m =? root then outs_of (x_graph st) root ++ [n] else outs_of (x_graph st) m) /\
+  kind_of g n = KDec true true /\
+  outs_of g n = repeat child k ++ (if leaf then [n + 1] else []) /\
+  (leaf = true -> kind_of g (n + 1) = KLeaf false /\ outs_of g (n + 1) = []).
+Proof.
+  intros Hr Hc n st' g. subst st' g. unfold rep_stage, xnoop, xnoop_leaf, xnew. cbn [fst snd].
+  set (s1 := mkXbst (x_graph st ++ [mkNode (KDec true true) (@None str) [] []]) (x_pay st ++ [XPNone]) (x_draws st)).
+  assert (L1 : xlen s1 = n + 1) by (unfold s1, xlen; cbn [x_graph]; rewrite app_length; cbn [length]; fold (xlen st); lia).
+  fold (xlen st). fold n.
+  destruct (xadd_times_spec k n child s1) as (L2 & _ & K2 & O2); [lia|lia|]. cbv zeta in *.
+  set (s2 := xadd_times k n child s1) in *.
+  assert (K1 : forall m, kind_of (x_graph s1) m = if m =? n then KDec true true else kind_of (x_graph st) m)
+    by (intros m; unfold s1; cbn [x_graph]; apply new_kind).
+  assert (O1 : forall m, outs_of (x_graph s1) m = if m =? n then [] else outs_of (x_graph st) m)
+    by (intros m; unfold s1; cbn [x_graph]; apply new_outs).
+  destruct leaf.
+  - set (g3 := x_graph s2 ++ [mkNode (KLeaf false) (@None str) [] []]).
+    assert (L3 : length g3 = n + 2) by (unfold g3; rewrite app_length; cbn [length]; fold (xlen s2); lia).
+    unfold xadd, xlen in *. cbn [x_graph x_pay x_draws]. fold g3.
+    set (g4 := add_transition g3 n (length (x_graph s2))).
+    assert (L4 : length g4 = n + 2) by (unfold g4; rewrite add_len; exact L3).
+    split; [rewrite add_len; lia|].
+    split; [intros m Hm; rewrite add_kind by lia; unfold g4; rewrite add_kind by lia; unfold g3; rewrite new_kind, K2, K1; eqbs; reflexivity|].
+    split; [intros m Hm; rewrite add_outs by lia; unfold g4; rewrite !add_outs by lia; unfold g3; rewrite !new_outs, !O2, !O1; eqbs; reflexivity|].
+    split; [rewrite add_kind by lia; unfold g4; rewrite add_kind by lia; unfold g3; rewrite new_kind, K2, K1; eqbs; reflexivity|].
+    split; [rewrite add_outs by lia; unfold g4; rewrite !add_outs by lia; unfold g3; rewrite !new_outs, !O2, !O1, L2, L1; eqbs; reflexivity|].
+    intros _. split.
+    + rewrite add_kind by lia. unfold g4. rewrite add_kind by lia. unfold g3. rewrite new_kind. eqbs. reflexivity.
+    + rewrite add_outs by lia. unfold g4. rewrite !add_outs by lia. unfold g3. rewrite !new_outs. eqbs. reflexivity.
+  - unfold xadd, xlen in *. cbn [x_graph x_pay x_draws].
+    split; [rewrite add_len; lia|].
+    split; [intros m Hm; rewrite add_kind by lia; rewrite K2, K1; eqbs; reflexivity|].
+    split; [intros m Hm; rewrite add_outs by lia; rewrite !O2, !O1; eqbs; reflexivity|].
+    split; [rewrite add_kind by lia; rewrite K2, K1; eqbs; reflexivity|].
+    split; [rewrite add_outs by lia; rewrite !O2, !O1; eqbs; rewrite app_nil_r; reflexivity|].
+    discriminate.
+Qed.
+
+(* an alternative below the decision of _repeat: no occurrence (valid exactly when minOccurs = 0), k occurrences with
+   k = minOccurs or k = maxOccurs, or minOccurs - 1 occurrences followed by a leaf marked invalid *)
+Definition RAlt (mn mx child root : nat) (g : graph) (a : nat) : Prop :=
+  (kind_of g a = KLeaf (mn =? 0) /\ outs_of g a = []) \/
+  (kind_of g a = KDec true true /\ exists k, outs_of g a = repeat child k /\ (k = mn \/ k = mx) /\ mn <= k <= mx) \/
+  (kind_of g a = KDec true true /\ 1 < mn /\ exists l, outs_of g a = repeat child (mn - 1) ++ [l] /\
+     root < l < length g /\ kind_of g l = KLeaf false /\ outs_of g l = []).
+Definition RI (mn mx child root : nat) (st0 st : xbst) : Prop :=
+  let g := x_graph st in
+  child < root /\ root = xlen st0 /\ root < xlen st /\ kind_of g root = KDec false true /\
+  (forall a, In a (outs_of g root) -> root < a < xlen st /\ RAlt mn mx child root g a) /\
+  (forall m, m < xlen st0 -> kind_of g m = kind_of (x_graph st0) m /\ outs_of g m = outs_of (x_graph st0) m).
+
+Lemma RI_stage mn mx child root k leaf st0 st :
+  RI mn mx child root st0 st ->
+  (leaf = false -> (k = mn \/ k = mx) /\ mn <= k <= mx) -> (leaf = true -> k = mn - 1 /\ 1 < mn) ->
+  RI mn mx child root st0 (rep_stage root child k leaf st).
+Proof.
+  intros (Hc & Hr0 & Hr & Kr & A & Old) HF HT.
+  destruct (rep_stage_spec root child k leaf st Hr ltac:(lia)) as (L & K & O & Kn & On & Ln). cbv zeta in *.
+  set (st' := rep_stage root child k leaf st) in *. set (n := xlen st) in *.
+  assert (Ln' : leaf = true -> n + 1 < xlen st').
+  { intros ->. unfold st', rep_stage, xnoop, xnoop_leaf, xnew. cbn [fst snd]. unfold xadd, xlen. cbn [x_graph].
+    rewrite !add_len, app_length. cbn [length].
+    match goal with |- _ < length (x_graph (xadd_times ?k ?s ?t ?s1)) + 1 =>
+      destruct (xadd_times_spec k s t s1) as (E & _); [unfold xlen; cbn [x_graph]; rewrite app_length; cbn [length]; fold (xlen st); lia
+                                                     |unfold xlen; cbn [x_graph]; rewrite app_length; cbn [length]; fold (xlen st); lia|] end.
+    cbv zeta in E. unfold xlen in E. rewrite E. cbn [x_graph]. rewrite app_length. cbn [length]. fold (xlen st). fold n. lia. }
+  unfold RI. cbv zeta. split; [exact Hc|]. split; [exact Hr0|]. split; [lia|]. split; [rewrite K by lia; exact Kr|]. split.
+  - intros a Ha. rewrite O in Ha by lia. rewrite Nat.eqb_refl in Ha. apply in_app_or in Ha. destruct Ha as [Ha|[<-|[]]].
+    + destruct (A a Ha) as [Ra Alt]. split; [lia|].
+      assert (Ea : a =? root = false) by (apply Nat.eqb_neq; lia).
+      destruct Alt as [(Ka & Oa)|[(Ka & kk & Oa & Hk)|(Ka & Hm & l & Oa & Rl & Kl & Ol)]].
+      * left. rewrite K, O by lia. rewrite Ea. auto.
+      * right; left. rewrite K, O by lia. rewrite Ea. eauto.
+      * right; right. rewrite K, O by lia. rewrite Ea. split; [exact Ka|]. split; [exact Hm|]. exists l.
+        assert (El : l =? root = false) by (apply Nat.eqb_neq; lia). fold (xlen st) in Rl. fold (xlen st').
+        rewrite K, O by lia. rewrite El. repeat split; auto; lia.
+    + split; [lia|]. destruct leaf.
+      * destruct (HT eq_refl) as [-> Hm]. destruct (Ln eq_refl) as [Kl Ol]. right; right. split; [exact Kn|]. split; [exact Hm|].
+        exists (n + 1). fold (xlen st'). pose proof (Ln' eq_refl). repeat split; auto; lia.
+      * destruct (HF eq_refl) as [Hk Hb]. right; left. split; [exact Kn|]. exists k. rewrite On, app_nil_r. auto.
+  - intros m Hm. destruct (Old m Hm) as [E1 E2]. assert (Em : m =? root = false) by (apply Nat.eqb_neq; lia).
+    assert (Lm : m < n) by (unfold n; lia). rewrite K, O by exact Lm. rewrite Em. auto.
+Qed.
+
+Theorem repeat_node_alternatives child mn mx st st' root :
+  child < xlen st -> repeat_node child mn mx st = Ok (st', root) ->
+  let mx' := match mx with None => mn + 1 | Some m => m end in
+  mn <= mx' /\ RI mn mx' child root st st'.
+Proof.
+  intros Hc H mx'. unfold repeat_node in H. unfold xnoop, xnoop_leaf, xnew in H. cbn [fst snd] in H. fold mx' in H.
+  destruct (Nat.ltb_spec mx' mn) as [|Hle]; [discriminate|]. split; [exact Hle|].
+  set (n := length (x_graph st)) in *.
+  set (s1 := mkXbst (x_graph st ++ [mkNode (KDec false true) (@None str) [] []]) (x_pay st ++ [XPNone]) (x_draws st)) in *.
+  set (s2 := mkXbst (x_graph s1 ++ [mkNode (KLeaf (mn =? 0)) (@None str) [] []]) (x_pay s1 ++ [XPNone]) (x_draws s1)) in *.
+  set (s3 := xadd n (length (x_graph s1)) s2) in *.
+  assert (L1 : length (x_graph s1) = n + 1) by (unfold s1; cbn [x_graph]; rewrite app_length; cbn [length]; fold n; lia).
+  assert (L2 : length (x_graph s2) = n + 2) by (unfold s2; cbn [x_graph]; rewrite app_length, L1; cbn [length]; lia).
+  assert (R3 : RI mn mx' child n st s3).
+  { unfold RI, s3, xadd, xlen. cbn [x_graph]. cbv zeta. fold n. rewrite add_len, L2.
+    assert (KK : forall m, kind_of (add_transition (x_graph s2) n (length (x_graph s1))) m =
+                           if m =? n + 1 then KLeaf (mn =? 0) else if m =? n then KDec false true else kind_of (x_graph st) m).
+    { intros m. rewrite add_kind by lia. unfold s2. cbn [x_graph]. rewrite new_kind, L1. unfold s1. cbn [x_graph].
+      rewrite new_kind. fold n. reflexivity. }
+    assert (OO : forall m, outs_of (add_transition (x_graph s2) n (length (x_graph s1))) m =
+                           if m =? n then [n + 1] else if m =? n + 1 then [] else outs_of (x_graph st) m).
+    { intros m. rewrite add_outs by lia. unfold s2. cbn [x_graph]. rewrite !new_outs, L1. unfold s1. cbn [x_graph].
+      rewrite !new_outs. fold n. eqbs; reflexivity. }
+    split; [exact Hc|]. split; [reflexivity|]. split; [lia|]. split; [rewrite KK; eqbs; reflexivity|]. split.
+    - intros a Ha. rewrite OO, Nat.eqb_refl in Ha. destruct Ha as [<-|[]]. split; [lia|]. left.
+      rewrite KK, OO. eqbs; split; reflexivity.
+    - intros m Hm. rewrite KK, OO. eqbs; split; reflexivity. }
+  clearbody s3. clear s1 s2 L1 L2.
+  set (s4 := if 0 <? mn then _ else s3) in H.
+  assert (R4 : RI mn mx' child n st s4).
+  { unfold s4. destruct (Nat.ltb_spec 0 mn); [|exact R3].
+    apply (RI_stage mn mx' child n mn false st s3 R3); [intros _; split; [left; reflexivity|lia]|discriminate]. }
+  clearbody s4.
+  set (s5 := if 1 <? mn then _ else s4) in H.
+  assert (R5 : RI mn mx' child n st s5).
+  { unfold s5. destruct (Nat.ltb_spec 1 mn); [|exact R4].
+    apply (RI_stage mn mx' child n (mn - 1) true st s4 R4); [discriminate|intros _; split; [reflexivity|assumption]]. }
+  clearbody s5.
+  destruct (Nat.eqb_spec mx' mn) as [E|NE]; injection H as <- <-; [exact R5|].
+  apply (RI_stage mn mx' child n mx' false st s5 R5); [intros _; split; [right; reflexivity|lia]|discriminate].
+Qed.
